@@ -2,6 +2,7 @@ package c06
 
 import (
 	"bufio"
+	"context"
 	"crypto/ecdsa"
 	"crypto/elliptic"
 	"crypto/rand"
@@ -10,6 +11,7 @@ import (
 	"crypto/x509/pkix"
 	"encoding/pem"
 	"fmt"
+	"io"
 	"math/big"
 	"net"
 	"net/http"
@@ -21,6 +23,7 @@ import (
 	"testing"
 	"time"
 
+	"github.com/tmpim/casket"
 	"pgregory.net/rapid"
 
 	"verif/harness/internal/srv"
@@ -39,7 +42,9 @@ var (
 	certOnce   sync.Once
 	certDir    string
 	clientCA   string // PEM file of the CA that signs client certificates
-	clientCert tls.Certificate
+	// two client CAs: the CA file names one of them (Case.CA), a client offers a certificate of either
+	clientCADer [2][]byte
+	clientCerts [2]tls.Certificate
 )
 
 var hostVocab = []string{"a.test", "b.test", "a.b.test", "c.b.test", "*.test", "*.b.test", "*.*.test", "", "0.0.0.0", "127.0.0.1"}
@@ -91,14 +96,17 @@ func setupCerts() {
 			kb, _ := x509.MarshalECPrivateKey(key)
 			writePEM(filepath.Join(certDir, fileBase(h)+".key"), "EC PRIVATE KEY", kb)
 		}
-		cca, ccaKey, ccaDer := newCA("verif client CA")
 		clientCA = filepath.Join(certDir, "clientca.crt")
-		writePEM(clientCA, "CERTIFICATE", ccaDer)
-		ckey, _ := ecdsa.GenerateKey(elliptic.P256(), rand.Reader)
-		ctpl := &x509.Certificate{SerialNumber: big.NewInt(77), Subject: pkix.Name{CommonName: "verif client"}, NotBefore: time.Now().Add(-time.Hour), NotAfter: time.Now().Add(24 * time.Hour),
-			KeyUsage: x509.KeyUsageDigitalSignature, ExtKeyUsage: []x509.ExtKeyUsage{x509.ExtKeyUsageClientAuth}}
-		cder, _ := x509.CreateCertificate(rand.Reader, ctpl, cca, &ckey.PublicKey, ccaKey)
-		clientCert = tls.Certificate{Certificate: [][]byte{cder}, PrivateKey: ckey}
+		for g := 0; g < 2; g++ {
+			cca, ccaKey, ccaDer := newCA(fmt.Sprintf("verif client CA %d", g))
+			clientCADer[g] = ccaDer
+			ckey, _ := ecdsa.GenerateKey(elliptic.P256(), rand.Reader)
+			ctpl := &x509.Certificate{SerialNumber: big.NewInt(77 + int64(g)), Subject: pkix.Name{CommonName: fmt.Sprintf("verif client %d", g)}, NotBefore: time.Now().Add(-time.Hour), NotAfter: time.Now().Add(24 * time.Hour),
+				KeyUsage: x509.KeyUsageDigitalSignature, ExtKeyUsage: []x509.ExtKeyUsage{x509.ExtKeyUsageClientAuth}}
+			cder, _ := x509.CreateCertificate(rand.Reader, ctpl, cca, &ckey.PublicKey, ccaKey)
+			clientCerts[g] = tls.Certificate{Certificate: [][]byte{cder}, PrivateKey: ckey}
+		}
+		writePEM(clientCA, "CERTIFICATE", clientCADer[0])
 	})
 }
 
@@ -117,12 +125,19 @@ type Shake struct {
 	CMin    string `json:"cmin"`
 	CMax    string `json:"cmax"`
 	Offer   bool   `json:"offer"` // offer a client certificate
+	OfferCA int    `json:"offer_ca,omitempty"` // which client CA signed the offered certificate
 	HostHdr string `json:"host"`  // Host header of the request after the handshake ("" = same as SNI)
+	H2      bool   `json:"h2,omitempty"` // repeat a crossing request over HTTP/2 (ALPN h2)
 }
 
 type Case struct {
 	Sites  []Site  `json:"sites"`
 	Shakes []Shake `json:"shakes"`
+	// CA: which client CA the `clients <file>` bundle holds when the configuration under test is loaded.
+	// Rotate: the same sites were first loaded with the other CA in that file; the file was then rewritten
+	// in place and the configuration reloaded (CA rotation).
+	CA     int  `json:"ca,omitempty"`
+	Rotate bool `json:"rotate,omitempty"`
 }
 
 var vers = map[string]uint16{"tls1.0": tls.VersionTLS10, "tls1.1": tls.VersionTLS11, "tls1.2": tls.VersionTLS12, "tls1.3": tls.VersionTLS13}
@@ -227,12 +242,25 @@ func siteRange(s Site) (uint16, uint16) {
 func runCase(c *Case) (nontrivial int, err error) {
 	setupCerts()
 	cf := casketfile(c)
+	if c.Rotate {
+		writePEM(clientCA, "CERTIFICATE", clientCADer[1-c.CA])
+	} else {
+		writePEM(clientCA, "CERTIFICATE", clientCADer[c.CA])
+	}
 	inst, e := srv.Start(cf, "")
 	if e != nil {
 		srv.Stop(inst)
 		return 0, fmt.Errorf("HARNESS: start: %v\n%s", e, cf)
 	}
-	defer srv.Stop(inst)
+	defer func() { srv.Stop(inst) }()
+	if c.Rotate {
+		writePEM(clientCA, "CERTIFICATE", clientCADer[c.CA])
+		ni, e := inst.Restart(casket.CasketfileInput{Contents: []byte(cf), Filepath: "Casketfile", ServerTypeName: "http"})
+		if e != nil {
+			return 0, fmt.Errorf("reloading the same sites after the client CA file was rewritten failed: %v\n%s", e, cf)
+		}
+		inst = ni
+	}
 	// besides the TLS listener casket synthesises a plaintext redirect listener on :80
 	var addr string
 	for _, a := range srv.Addrs(inst) {
@@ -254,7 +282,7 @@ func runCase(c *Case) (nontrivial int, err error) {
 			GetClientCertificate: func(info *tls.CertificateRequestInfo) (*tls.Certificate, error) {
 				requested = true
 				if sh.Offer {
-					return &clientCert, nil
+					return &clientCerts[sh.OfferCA&1], nil
 				}
 				return &tls.Certificate{}, nil
 			}}
@@ -289,6 +317,13 @@ func runCase(c *Case) (nontrivial int, err error) {
 					nontrivial++
 					if resp.StatusCode != 403 || resp.Header.Get("X-Site") != "" {
 						return nontrivial, fmt.Errorf("handshake %d %+v against sites %+v: request for Host %q (site %+v demands client certificates) over a handshake for SNI %q was answered %d X-Site=%q, want 403", i, sh, c.Sites, hostHdr, hsite, sh.SNI, resp.StatusCode, resp.Header.Get("X-Site"))
+					}
+					if sh.H2 {
+						// the same crossing over HTTP/2: the rule is about requests, not about the protocol version
+						st, xs, proto, e2 := h2Get(addr, conf, hostHdr)
+						if e2 == nil && proto == 2 && (st != 403 || xs != "") {
+							return nontrivial, fmt.Errorf("handshake %d %+v against sites %+v: HTTP/2 request for Host %q (site %+v demands client certificates) over a handshake for SNI %q was answered %d X-Site=%q, want 403", i, sh, c.Sites, hostHdr, hsite, sh.SNI, st, xs)
+						}
 					}
 				}
 			}
@@ -328,6 +363,14 @@ func runCase(c *Case) (nontrivial int, err error) {
 			continue
 		}
 		needCert := ws.Clients == "require" || ws.Clients == "verify"
+		// a certificate of the CA the bundle does not (any longer) name must not be admitted by a verifying site
+		if sh.Offer && (ws.Clients == "verify" || ws.Clients == "verify_if_given") && sh.OfferCA&1 != c.CA&1 {
+			nontrivial++
+			if herr == nil && rerr == nil && resp != nil && resp.StatusCode == 204 {
+				return nontrivial, fmt.Errorf("%s: the site verifies client certificates against client CA %d (rotated in by a reload: %v), the client offered one signed by CA %d, yet the request was served", desc, c.CA, c.Rotate, sh.OfferCA)
+			}
+			continue
+		}
 		if isCatchAll(ws.Host) && herr != nil {
 			// a catch-all site has no certificate for an arbitrary name: failing the handshake is fine
 			continue
@@ -376,6 +419,30 @@ func runCase(c *Case) (nontrivial int, err error) {
 		}
 	}
 	return nontrivial, nil
+}
+
+// h2Get makes one HTTP/2 request for Host host over a fresh handshake made with conf (plus ALPN h2).
+func h2Get(addr string, conf *tls.Config, host string) (status int, xsite string, proto int, err error) {
+	c2 := conf.Clone()
+	c2.NextProtos = []string{"h2"}
+	tr := &http.Transport{TLSClientConfig: c2, ForceAttemptHTTP2: true,
+		DialContext: func(ctx context.Context, network, _ string) (net.Conn, error) {
+			return (&net.Dialer{Timeout: 3 * time.Second}).DialContext(ctx, network, addr)
+		}}
+	defer tr.CloseIdleConnections()
+	cl := &http.Client{Transport: tr, Timeout: 10 * time.Second, CheckRedirect: func(*http.Request, []*http.Request) error { return http.ErrUseLastResponse }}
+	req, err := http.NewRequest("GET", "https://placeholder.invalid/", nil)
+	if err != nil {
+		return 0, "", 0, err
+	}
+	req.Host = host
+	resp, err := cl.Do(req)
+	if err != nil {
+		return 0, "", 0, err
+	}
+	io.Copy(io.Discard, resp.Body)
+	resp.Body.Close()
+	return resp.StatusCode, resp.Header.Get("X-Site"), resp.ProtoMajor, nil
 }
 
 // ---------------------------------------------------------------------------
@@ -459,14 +526,20 @@ func genCase(t *rapid.T) *Case {
 	for i, h := range hosts {
 		c.Sites = append(c.Sites, genSite(t, fmt.Sprintf("s%d", i), h))
 	}
+	c.CA = rapid.IntRange(0, 1).Draw(t, "ca")
+	c.Rotate = rapid.IntRange(0, 3).Draw(t, "rotate") == 0
 	n := rapid.IntRange(4, 14).Draw(t, "nshakes")
 	for i := 0; i < n; i++ {
 		lb := fmt.Sprintf("h%d", i)
 		sh := Shake{SNI: rapid.SampledFrom(sniVocab).Draw(t, lb+"sni"), Offer: rapid.Bool().Draw(t, lb+"offer")}
+		if sh.Offer {
+			sh.OfferCA = rapid.SampledFrom([]int{c.CA, c.CA, 1 - c.CA}).Draw(t, lb+"oca")
+		}
 		r := rapid.SampledFrom([][2]string{{"tls1.2", "tls1.3"}, {"tls1.0", "tls1.3"}, {"tls1.2", "tls1.2"}, {"tls1.3", "tls1.3"}, {"tls1.0", "tls1.1"}, {"tls1.0", "tls1.2"}}).Draw(t, lb+"cr")
 		sh.CMin, sh.CMax = r[0], r[1]
 		if rapid.IntRange(0, 2).Draw(t, lb+"hh") == 0 {
 			sh.HostHdr = rapid.SampledFrom(sniVocab[:8]).Draw(t, lb+"hhv")
+			sh.H2 = rapid.Bool().Draw(t, lb+"h2")
 		}
 		c.Shakes = append(c.Shakes, sh)
 	}
